@@ -162,8 +162,29 @@ func corrC12(c *corrCtx) {
 				c.direct(fmt.Sprintf("C12/compose/%s-%s", names[ai], names[bi]), "A->B followed by B->C differs from A->C", map[string]interface{}{"A": A, "B": B, "C": C, "diff": dc})
 			}
 			// linear action on colours
-			for k := 0; k < 2; k++ {
+			for k := 0; k < 6; k++ {
 				u := ciexyz.Color{X: float32(r.f64() * 1.2), Y: float32(r.f64() * 1.2), Z: float32(r.f64() * 1.2)}
+				switch k {
+				case 2: // basis vectors and colours with exact zeros (either sign), tiny and negative components
+					u = [](ciexyz.Color){{X: 1}, {Y: 1}, {Z: 1}, {X: 1, Z: 1}, {X: 0.5, Y: 0, Z: 0.25}, {}}[r.intn(6)]
+				case 3:
+					z := float32(math.Copysign(0, -float64(r.intn(2))))
+					switch r.intn(3) {
+					case 0:
+						u.X = z
+					case 1:
+						u.Y = z
+					default:
+						u.Z = z
+					}
+				case 4:
+					u = ciexyz.Color{X: float32(r.f64() * 2e-4), Y: float32(r.f64() * 2e-4), Z: float32(r.f64())}
+					if r.intn(2) == 0 {
+						u.Y = float32(r.f64() * 1e-6)
+					}
+				case 5:
+					u = ciexyz.Color{X: float32(r.f64()*3 - 1), Y: float32(r.f64()*3 - 1), Z: float32(r.f64()*3 - 1)}
+				}
 				gu := ca.Apply(u)
 				c.emit("apply", fmt.Sprintf("apply %s %08x %08x %08x", m3hex(matrix.Matrix3(ca)), fb(u.X), fb(u.Y), fb(u.Z)), fmt.Sprintf("%08x %08x %08x", fb(gu.X), fb(gu.Y), fb(gu.Z)))
 				want := mulv3(caTo64(ca), [3]float64{float64(u.X), float64(u.Y), float64(u.Z)})
@@ -343,6 +364,37 @@ func corrC13(c *corrCtx) {
 				col = ciexyz.Color{X: float32(r.f64() * 0.02), Y: float32(r.f64() * 0.02), Z: float32(r.f64() * 0.02)}
 			}
 			check("random", col, w)
+		}
+		// near-neutral colours: a multiple of the white with one or two components moved by a relative
+		// 1e-7 .. 1e-3 (a* and b* are small but not zero; the definition gives their exact size)
+		nn := 300
+		if c.thorough() {
+			nn = 20000
+		}
+		for i := 0; i < nn; i++ {
+			k := float32(0.002 + 1.6*r.f64())
+			if i%4 == 0 {
+				k = float32(0.002 + 0.02*r.f64()) // around the junction
+			}
+			col := ciexyz.Color{X: w.X * k, Y: w.Y * k, Z: w.Z * k}
+			eps := float32(math.Pow(10, -7+4*r.f64()))
+			if r.intn(2) == 0 {
+				eps = -eps
+			}
+			switch r.intn(5) {
+			case 0:
+				col.X *= 1 + eps
+			case 1:
+				col.Y *= 1 + eps
+			case 2:
+				col.Z *= 1 + eps
+			case 3:
+				col.X *= 1 + eps
+				col.Z *= 1 - eps
+			default:
+				col.X = math.Nextafter32(col.X, 9)
+			}
+			check("near-neutral", col, w)
 		}
 		// coordinates exactly zero (either sign), one or two at a time, the others free; and exact multiples
 		negz := float32(math.Copysign(0, -1))
@@ -651,6 +703,74 @@ func corrC20(c *corrCtx) {
 		c.emit("transpose", "m3t "+mhex(m), mhex(tr))
 		if tr.Transpose() != m {
 			c.direct(fmt.Sprintf("C20/transpose/%d", i), "Transpose is not an involution", nil)
+		}
+	}
+	// structured operands: every pattern of exact zeros (all 512) on either side of MulM and under
+	// MulV / Transpose / Inverse, with entries that are exactly 0, ±1 or random
+	for pat := 0; pat < 512; pat++ {
+		sp := func() matrix.Matrix3 {
+			var m matrix.Matrix3
+			for i := 0; i < 3; i++ {
+				for j := 0; j < 3; j++ {
+					if pat>>(uint(3*i+j))&1 == 1 {
+						switch r.intn(4) {
+						case 0:
+							m[i][j] = 1
+						case 1:
+							m[i][j] = -1
+						default:
+							m[i][j] = -4 + 8*r.f64()
+						}
+					}
+				}
+			}
+			return m
+		}
+		for side := 0; side < 2; side++ {
+			m, o := rm(), sp()
+			if side == 1 {
+				m, o = sp(), rm()
+			}
+			if pat%7 == 0 {
+				m = sp()
+			}
+			pm := m.MulM(o)
+			c.emit("mulm-sparse", "m3mulm "+mhex(m)+" "+mhex(o), mhex(pm))
+			if d := maxAbsDiff(m3to64(pm), mul3(m3to64(m), m3to64(o))); d > 1e-12*100 {
+				c.direct(fmt.Sprintf("C20/mulm-sparse/%03x/%d", pat, side), "MulM differs from the independent matrix product on an operand with exact zeros",
+					map[string]interface{}{"zero_pattern": pat, "m": mhex(m), "o": mhex(o), "diff": d})
+			}
+		}
+		m := sp()
+		v := matrix.Vector3{-4 + 8*r.f64(), -4 + 8*r.f64(), -4 + 8*r.f64()}
+		if pat%3 == 0 {
+			v[r.intn(3)] = 0
+		}
+		pv := m.MulV(v)
+		c.emit("mulv-sparse", fmt.Sprintf("m3mulv %s %016x %016x %016x", mhex(m), math.Float64bits(v[0]), math.Float64bits(v[1]), math.Float64bits(v[2])),
+			fmt.Sprintf("%016x %016x %016x", math.Float64bits(pv[0]), math.Float64bits(pv[1]), math.Float64bits(pv[2])))
+		wv := mulv3(m3to64(m), [3]float64{v[0], v[1], v[2]})
+		if math.Abs(pv[0]-wv[0]) > 1e-12 || math.Abs(pv[1]-wv[1]) > 1e-12 || math.Abs(pv[2]-wv[2]) > 1e-12 {
+			c.direct(fmt.Sprintf("C20/mulv-sparse/%03x", pat), "MulV differs from the independent matrix-vector product on a matrix with exact zeros", map[string]interface{}{"m": mhex(m)})
+		}
+		c.emit("transpose-sparse", "m3t "+mhex(m), mhex(m.Transpose()))
+		M := m3to64(m)
+		det := M[0][0]*(M[1][1]*M[2][2]-M[1][2]*M[2][1]) - M[0][1]*(M[1][0]*M[2][2]-M[1][2]*M[2][0]) + M[0][2]*(M[1][0]*M[2][1]-M[1][1]*M[2][0])
+		if math.Abs(det) >= 1e-3 {
+			inv, pan := safeInverse(m)
+			if pan {
+				c.emit("inv-sparse", "m3inv "+mhex(m), "panic")
+				c.direct(fmt.Sprintf("C20/inv-panic-sparse/%03x", pat), "Inverse panics on an invertible matrix", map[string]interface{}{"m": mhex(m), "det": det})
+			} else {
+				c.emit("inv-sparse", "m3inv "+mhex(m), mhex(canonNaN64(inv)))
+				if d := maxAbsDiff(m3to64(inv), inv3(M)); d > 1e-9*cond3(M) {
+					c.direct(fmt.Sprintf("C20/inv-sparse/%03x", pat), "Inverse differs from the independent float64 inverse", map[string]interface{}{"m": mhex(m), "diff": d})
+				}
+				// the product with the inverse is the identity
+				if d := maxAbsDiff(m3to64(m.MulM(inv)), ident3); d > 1e-9*cond3(M) {
+					c.direct(fmt.Sprintf("C20/inv-product-sparse/%03x", pat), "m x Inverse(m) is not the identity within 1e-9 x condition number", map[string]interface{}{"m": mhex(m), "diff": d})
+				}
+			}
 		}
 	}
 	// exactly singular matrices: repeated or zero columns (any float content)
